@@ -61,6 +61,8 @@ type opResult struct {
 	outDump  string // semantic dump of the produced packet(s) at return (unmasked)
 	outDumpM string // masked
 	siteHash uint64 // hash of the yield sites this operation passed
+	// addresses reachable from the operation's input object, in traversal order (for texts that contain them)
+	addrs []uintptr
 	// early O5 verdict, taken when the values were released
 	changedEarly bool
 	earlyExp     string
@@ -483,15 +485,18 @@ func (w *world) execOp(t int, op *Op, in *slotVal) (res opResult, out slotVal) {
 	case opString:
 		if s, ok := in.pkt.(fmt.Stringer); ok {
 			guarded(&res, func() { res.addStr(vopString(s)) })
+			res.addrs = collectAddrs(in.pkt)
 		} else {
 			res.skipped = true
 		}
 	case opFmtV:
 		p := in.pkt
 		guarded(&res, func() { res.addStr(vopFmtV(p)) })
+		res.addrs = collectAddrs(p)
 	case opFmtPV:
 		p := in.pkt
 		guarded(&res, func() { res.addStr(vopFmtPlusV(p)) })
+		res.addrs = collectAddrs(p)
 	case opHeader:
 		if h, ok := in.pkt.(interface{ Header() rtcp.Header }); ok {
 			guarded(&res, func() {
@@ -953,6 +958,52 @@ func cloneIso(in *slotVal) slotVal {
 		return out
 	}
 	out.pkt = p
+	return out
+}
+
+// collectAddrs lists, in traversal order, the addresses reachable from x through exported fields: the object
+// itself, pointees, slice backing arrays.  A text that legitimately mentions one of them (a String() printing
+// element pointers, in whatever spelling) is compared with its twin's text after each side's addresses have
+// been replaced by their position in this list.  Lock-free reflect only.
+func collectAddrs(x interface{}) []uintptr {
+	var out []uintptr
+	var walk func(v reflect.Value, depth int)
+	walk = func(v reflect.Value, depth int) {
+		if depth > 60 || !v.IsValid() || len(out) > 4096 {
+			return
+		}
+		switch v.Kind() {
+		case reflect.Ptr:
+			if !v.IsNil() {
+				out = append(out, v.Pointer())
+				walk(v.Elem(), depth+1)
+			}
+		case reflect.Interface:
+			if !v.IsNil() {
+				walk(v.Elem(), depth+1)
+			}
+		case reflect.Struct:
+			t := v.Type()
+			mask := exportedMask[t]
+			for i := 0; i < t.NumField(); i++ {
+				if (mask != nil && mask[i]) || (mask == nil && t.Field(i).PkgPath == "") {
+					walk(v.Field(i), depth+1)
+				}
+			}
+		case reflect.Slice:
+			if !v.IsNil() {
+				out = append(out, v.Pointer())
+				if k := v.Type().Elem().Kind(); k == reflect.Ptr || k == reflect.Interface || k == reflect.Struct || k == reflect.Slice {
+					for i := 0; i < v.Len() && i < 512; i++ {
+						walk(v.Index(i), depth+1)
+					}
+				}
+			}
+		}
+	}
+	if x != nil {
+		walk(reflect.ValueOf(x), 0)
+	}
 	return out
 }
 
